@@ -213,6 +213,10 @@ def _guard_atoms_local(body, bb, depth=0):
         out.append((e, pol, val, sb))
         if e[0] == "phi" and pol is not None and depth < 2 and body.locals[e[1]]["ty"] == "bool":
             out += _phi_implied(body, e[1], pol, depth)
+        if e[0] == "discr" and depth < 2 and strip(e[1])[0] == "phi" and e[2] == "std::option::Option" and not isinstance(val, tuple):
+            nm = dict((v_, n_) for (v_, n_) in (e[3] or [])).get(val)
+            if nm in ("Some", "None"):
+                out += _option_known(body, strip(e[1])[1], nm == "Some", depth)
         if e[0] == "call" and pol is not None and depth < 2 and len(e[2]) == 1 and strip(e[2][0])[0] == "phi" and \
                 (e[1].endswith("Option::<T>::is_some") or e[1].endswith("Option::<T>::is_none")):
             out += _option_known(body, strip(e[2][0])[1], pol if e[1].endswith("is_some") else (not pol), depth)
